@@ -906,10 +906,41 @@ def m_int_hash(I, c, v, h):
     return UNIT()
 
 
-@model('Ord::cmp@isize', 'Ord::cmp@usize', 'Ord::cmp@u8')
+@model('Ord::cmp@isize', 'Ord::cmp@usize', 'Ord::cmp@u8', 'Ord::cmp@u16', 'Ord::cmp@u32', 'Ord::cmp@u64')
 def m_int_cmp(I, c, a, b):
     a, b = deref_all(a), deref_all(b)
-    return Ordering((a > b) - (a < b))
+    if isinstance(a, int) and isinstance(b, int):
+        return Ordering((a > b) - (a < b))
+    # unsigned comparison of (partly) symbolic values: decided by the solver
+    if isinstance(a, int):
+        a = z3.BitVecVal(a, b.size())
+    if isinstance(b, int):
+        b = z3.BitVecVal(b, a.size())
+    if I.ctx.decide(a == b):
+        return Ordering(0)
+    return Ordering(-1 if I.ctx.decide(z3.ULT(a, b)) else 1)
+
+
+@model('Ord::cmp@Result', 'Ord::cmp@Option', 'PartialOrd::partial_cmp@Result', 'PartialOrd::partial_cmp@Option', 'PartialEq::eq@Result')
+def m_sum_cmp(I, c, a, b):
+    """derived comparison of Result / Option: by variant in declaration order (Ok < Err, None < Some), then by payload"""
+    x, y = deref_all(a), deref_all(b)
+    order = {'Ok': 0, 'Err': 1, 'None': 0, 'Some': 1}
+    partial = c.method == 'partial_cmp'
+    if c.method == 'eq':
+        if x.variant != y.variant:
+            return False
+        if not x.fields:
+            return True
+        et = c.self_ty[2][0 if x.variant in ('Ok', 'Some') else 1]
+        return I.trait_call('PartialEq', 'eq', et, [Ref(x.fields, 0), Ref(y.fields, 0)])
+    if x.variant != y.variant:
+        o = Ordering((order[x.variant] > order[y.variant]) - (order[x.variant] < order[y.variant]))
+        return Some(o) if partial else o
+    if not x.fields:
+        return Some(Ordering(0)) if partial else Ordering(0)
+    et = c.self_ty[2][0 if x.variant in ('Ok', 'Some') else 1]
+    return I.trait_call('PartialOrd' if partial else 'Ord', c.method, et, [Ref(x.fields, 0), Ref(y.fields, 0)])
 
 
 @model('PartialOrd::partial_cmp@isize', 'PartialOrd::partial_cmp@usize')
@@ -1054,7 +1085,21 @@ def m_string_with_capacity(I, c, n):
        '$S::from', 'Clone::clone@String', 'Clone::clone@SmartString', 'fn:to_owned', 'Cow::into_owned',
        'str::to_owned', 'str::to_string', 'String::from_str')
 def m_string_from(I, c, s):
+    v = deref_all(s)
+    if isinstance(v, Adt) and v.ty == 'ModelQual':      # SmallString: From<ModelQual> of a user-written typed qualifier
+        return StringBuf(sbytes(v.fields[0]))
     return StringBuf(sbytes(s))
+
+
+# ---- a user-written typed qualifier (KnownQualifierKey + From<&str>, SmallString: From<Q>): the key is chosen by the harness (I.mq_key)
+@model('const:KnownQualifierKey::KEY@ModelQual')
+def m_mq_key(I, c):
+    return RStr(list(I.mq_key))
+
+
+@model('From::from@ModelQual')
+def m_mq_from(I, c, s):
+    return Adt('ModelQual', None, [RStr(sbytes(s))])
 
 
 @model('FromStr::from_str@String', 'FromStr::from_str@SmartString')
@@ -1750,6 +1795,16 @@ def m_new_display(I, c, r):
     return FmtArg('Display', c.margs[0], r)
 
 
+@model('Argument::new_lower_hex')
+def m_new_lower_hex(I, c, r):
+    return FmtArg('LowerHex', c.margs[0], r)
+
+
+@model('Argument::new_upper_hex')
+def m_new_upper_hex(I, c, r):
+    return FmtArg('UpperHex', c.margs[0], r)
+
+
 @model('Argument::new_debug')
 def m_new_debug(I, c, r):
     return FmtArg('Debug', c.margs[0], r)
@@ -1772,6 +1827,36 @@ def fmt_write(I, f, a):
             r = I.trait_call(arg.kind, 'fmt', arg.ty, [arg.val, Ref([f], 0)])
             if r.variant != 'Ok':
                 return r
+        elif x == 0xC3:
+            # placeholder with flags (u32 LE: fill in the low 21 bits, bit 24 = zero padding) and width (u16 LE)
+            flags = t[i + 1] | t[i + 2] << 8 | t[i + 3] << 16 | t[i + 4] << 24
+            width = t[i + 5] | t[i + 6] << 8
+            i += 7
+            arg = a.args[ai]
+            ai += 1
+            if arg.kind not in ('LowerHex', 'UpperHex') or not (flags >> 24 & 1) or flags >> 21 & 7:
+                raise Unsupported('format placeholder with flags 0x%08x for %s' % (flags, arg.kind))
+            v = deref_all(arg.val)
+            bits = {'u8': 8, 'u16': 16, 'u32': 32, 'u64': 64, 'usize': 64}.get(show(arg.ty))
+            if bits is None:
+                raise Unsupported('hex formatting of ' + show(arg.ty))
+            digits = []
+            for k in range(bits // 4 - 1, -1, -1):
+                if isinstance(v, int):
+                    nib = v >> (4 * k) & 15
+                    digits.append((b'0123456789abcdef' if arg.kind == 'LowerHex' else b'0123456789ABCDEF')[nib])
+                else:
+                    nib = z3.Extract(7, 0, z3.ZeroExt(8, z3.LShR(v, 4 * k) & 15)) if v.size() >= 8 else None
+                    nib = z3.Extract(7, 0, z3.LShR(zx(v, max(v.size(), 8)), 4 * k)) & 15
+                    digits.append(z3.simplify(z3.If(z3.ULT(nib, 10), nib + 0x30, nib + (0x57 if arg.kind == 'LowerHex' else 0x37))))
+            # leading zeros beyond the requested width are dropped only when they are certain (concrete values); a symbolic value keeps
+            # the full width of its type when that equals the requested width
+            if isinstance(v, int):
+                while len(digits) > max(width, 1) and digits[0] == 0x30:
+                    digits.pop(0)
+            elif len(digits) != width:
+                raise Unsupported('hex formatting of a symbolic value wider than the requested width')
+            f.out.extend(digits)
         else:
             raise Unsupported('format template opcode 0x%02x' % x)
     return Ok(UNIT())
@@ -2921,6 +3006,111 @@ def m_string_insert_str(I, c, r, idx, s):
     _check_boundary(I, buf.b, idx)
     buf.b[idx:idx] = list(sbytes(s))
     return UNIT()
+
+
+@model('SmartString::is_inline')
+def m_ss_is_inline(I, c, r):
+    """a SmartString built from text is inline exactly when it fits the 23-byte inline buffer (64-bit targets); the lazily compacting
+    mode keeps a shortened string boxed, which this model does not track"""
+    return len(strbuf_of(r).b) <= 23
+
+
+@model('const:smartstring::MAX_INLINE', 'const:MAX_INLINE')
+def m_ss_max_inline(I, c):
+    return 23
+
+
+@model('$S::drain')
+def m_string_drain(I, c, r, rg):
+    buf = strbuf_of(r)
+    lo, hi = _range_of(rg, len(buf.b))
+    if not (isinstance(lo, int) and isinstance(hi, int)):
+        raise Unsupported('symbolic drain range')
+    if lo > hi or hi > len(buf.b):
+        raise Panic('drain range out of bounds (%d..%d of %d)' % (lo, hi, len(buf.b)))
+    _check_boundary(I, buf.b, lo)
+    _check_boundary(I, buf.b, hi)
+    out = buf.b[lo:hi]
+    del buf.b[lo:hi]         # the removal happens when the Drain is dropped; nothing observes the string in between
+    return ListIt([x for x in chars_of(I, out)])
+
+
+@model('u8::from_str_radix', 'u16::from_str_radix', 'u32::from_str_radix', 'u64::from_str_radix', 'usize::from_str_radix')
+def m_from_str_radix(I, c, s, radix):
+    """unsigned from_str_radix(_, 16): an optional leading '+', then one or more hex digits; overflow is an error"""
+    if radix != 16:
+        raise Unsupported('from_str_radix with radix %r' % (radix,))
+    bits = {'u8': 8, 'u16': 16, 'u32': 32, 'u64': 64, 'usize': 64}[c.text.split('::')[0] if c.text else 'u8'] if False else None
+    name = (c.self_ty[1] if c.self_ty is not None and c.self_ty[0] == 'adt' else None) or (show(c.self_ty) if c.self_ty is not None else 'u8')
+    bits = {'u8': 8, 'u16': 16, 'u32': 32, 'u64': 64, 'usize': 64}[name]
+    b = list(sbytes(s))
+    err = Err(Adt('ParseIntError', None, []))
+    if not b:
+        return err
+    if beq(I, b[0], 0x2B):
+        b = b[1:]
+        if not b:
+            return err
+    elif len(b) == 1 and beq(I, b[0], 0x2D):
+        return err
+    HEXD = sum(1 << x for x in b'0123456789abcdefABCDEF')
+    val = 0
+    for x in b:
+        if not in_set(I, x, HEXD):
+            return err
+        if isinstance(x, int):
+            d = int(chr(x), 16)
+        else:
+            xx = zx(x, bits) if bits > 8 else x
+            d = z3.If(z3.ULE(xx, 0x39), xx - 0x30, (xx | 0x20) - 0x57)
+        if len(b) * 4 > bits:
+            raise Unsupported('from_str_radix: possible overflow not modelled')
+        val = (val << 4 | d) if isinstance(val, int) and isinstance(d, int) else ((z3.BitVecVal(val, bits) if isinstance(val, int) else val) << 4) | (z3.BitVecVal(d, bits) if isinstance(d, int) else d)
+    return Ok(val if isinstance(val, int) else z3.simplify(val))
+
+
+@model('FromStr::from_str@u64', 'FromStr::from_str@u32', 'FromStr::from_str@usize', 'FromStr::from_str@u16', 'FromStr::from_str@u8')
+def m_uint_from_str(I, c, s):
+    """unsigned decimal FromStr: an optional leading '+', then one or more ASCII digits; overflow is an error"""
+    name = c.self_ty[1] if c.self_ty is not None and c.self_ty[0] == 'adt' else show(c.self_ty)
+    bits = {'u8': 8, 'u16': 16, 'u32': 32, 'u64': 64, 'usize': 64}[name]
+    b = list(sbytes(s))
+    err = Err(Adt('ParseIntError', None, []))
+    if not b:
+        return err
+    if beq(I, b[0], 0x2B):
+        b = b[1:]
+        if not b:
+            return err
+    elif len(b) == 1 and beq(I, b[0], 0x2D):
+        return err
+    if 10 ** len(b) - 1 >= 2 ** bits:
+        raise Unsupported('decimal parse: possible overflow not modelled (%d digits into %s)' % (len(b), name))
+    DIG = sum(1 << x for x in b'0123456789')
+    val = 0
+    for x in b:
+        if not in_set(I, x, DIG):
+            return err
+        d = x - 0x30 if isinstance(x, int) else zx(x, bits) - 0x30
+        if isinstance(val, int) and isinstance(d, int):
+            val = val * 10 + d
+        else:
+            val = (z3.BitVecVal(val, bits) if isinstance(val, int) else val) * 10 + (z3.BitVecVal(d, bits) if isinstance(d, int) else d)
+    return Ok(val if isinstance(val, int) else z3.simplify(val))
+
+
+@model('Iterator::step_by')
+def m_step_by(I, c, it, n):
+    v = deref_all(it)
+    if not isinstance(n, int) or n == 0:
+        raise Panic('step_by(0)') if n == 0 else Unsupported('symbolic step')
+    if isinstance(v, Adt) and v.ty == 'Range':
+        lo, hi = v.fields
+        if not (isinstance(lo, int) and isinstance(hi, int)):
+            raise Unsupported('step_by over a symbolic range')
+        return ListIt(list(range(lo, hi, n)))
+    xs = as_iter(I, it).drain(I)
+    return ListIt(xs[::n])
 
 
 @model('$S::truncate')
